@@ -155,7 +155,18 @@ def scans(facts):
                                             ("locale", "setlocale"), ("os", "umask")):
                             found.add((file, fn.name, f"{recv}.{meth}"))
     extra = sorted(found - set(ALLOWED_GLOBAL_WRITERS))
-    return [{"name": "global_state_writers", "ok": not extra, "detail": [f"{f}: {fn}: {what}" for f, fn, what in extra], "sites": len(found),
+    # call-site scan: the header cache is written and read back in ONE dialect (the csv module's defaults on both sides)
+    from . import shared as _sh
+    rd = _sh.call_sites(facts, "csvpath/util/cache.py::Cache.cached_text", "csv.reader")
+    wr = _sh.call_sites(facts, "csvpath/managers/files/file_cacher.py::FileCacher._cache_lines_and_headers", "csv.writer")
+    rkw = [_sh.kw_source(c) for c in (rd or [])]
+    wkw = [{k: v for k, v in _sh.kw_source(c).items() if k != "lineterminator"} for c in (wr or [])]
+    same_dialect = bool(rd) and bool(wr) and all(k == {} for k in rkw) and all(k == {} for k in wkw)
+    dialect = {"name": "header_cache_is_read_back_in_the_dialect_it_is_written_in", "advisory": True, "ok": same_dialect, "sites": len(rd or []) + len(wr or []),
+               "detail": [ast.unparse(c) for c in (rd or []) + (wr or [])] or "csv.reader / csv.writer call not found in Cache.cached_text / FileCacher._cache_lines_and_headers",
+               "text": "Cache.cached_text reads the cached headers with csv.reader(file) and FileCacher._cache_lines_and_headers writes them with csv.writer(buf): the csv module's defaults "
+                       "on both sides (C19: a warm cache gives the headers a cold one does, whatever delimiter the CsvPaths is configured with)"}
+    return [dialect, {"name": "global_state_writers", "ok": not extra, "detail": [f"{f}: {fn}: {what}" for f, fn, what in extra], "sites": len(found),
              "text": "every write to class-level / module-level mutable state or to a process-wide switch in the package is one of the "
                      f"{len(ALLOWED_GLOBAL_WRITERS)} known, idempotent writers (C19: a result must not depend on what ran earlier in the process)"}]
 
